@@ -12,7 +12,7 @@ from typing import Any, Callable, Dict, Generic, Iterator, List, Literal, Option
 import torch.multiprocessing as mp
 from torchdata.nodes.base_node import BaseNode, T
 from torchdata.nodes.batch import Batcher, Unbatcher
-from torchdata.nodes.exception_wrapper import ExceptionWrapper, StartupExceptionWrapper
+from torchdata.nodes.exception_wrapper import ExceptionWrapper, MapFnExceptionWrapper, StartupExceptionWrapper
 from torchdata.nodes.snapshot_store import QueueSnapshotStore, SnapshotStore
 
 from ._apply_udf import _apply_udf
@@ -263,6 +263,11 @@ class _ParallelMapperIter(Iterator[T]):
             elif isinstance(item, ExceptionWrapper):
                 if not isinstance(item, StartupExceptionWrapper):
                     self._sem.release()
+                if isinstance(item, MapFnExceptionWrapper):
+                    # the failing item was consumed from the source: a state taken after this error
+                    # must not replay the items that follow it
+                    self._steps_since_snapshot += 1
+                    self._maybe_update_snapshot(idx)
                 item.reraise()
 
             self._steps_since_snapshot += 1
